@@ -160,8 +160,14 @@ pub fn ansi_preserving_slice(s: &str, start: usize) -> String {
                         // This section starts after `start`, so contributes all its bytes.
                         &s[a..b]
                     } else {
-                        // This section contributes those bytes that are >= start
-                        &s[(a + start - i)..b]
+                        // This section contributes those bytes that are >= start (from the
+                        // next character boundary on: `start` may fall inside a multi-byte
+                        // character, e.g. when a diff-marker column holds something else).
+                        let mut from = a + start - i;
+                        while !s.is_char_boundary(from) {
+                            from += 1;
+                        }
+                        &s[from..b]
                     }
                 }
             })
